@@ -17,11 +17,11 @@ type Case struct {
 	SrcSame bool        `json:"src_same"` // source geographic system on the destination's own datum (else WGS84)
 	// SrcNoDatum: where WGS84 would be the source, use the geographic system on the WGS84 ellipsoid WITHOUT a datum
 	// (+ellps=WGS84 only) - the pairing of a datum-less reference with a 3/7-parameter one
-	SrcNoDatum bool    `json:"src_no_datum,omitempty"`
+	SrcNoDatum bool `json:"src_no_datum,omitempty"`
 	// SrcNone: how the datum-less source says that it has no datum ("" = not at all, "+datum=none", "+nadgrids=@null")
-	SrcNone string `json:"src_none,omitempty"`
-	Lon        float64 `json:"lon"` // degrees east of Greenwich
-	Lat        float64 `json:"lat"`
+	SrcNone string  `json:"src_none,omitempty"`
+	Lon     float64 `json:"lon"` // degrees east of Greenwich
+	Lat     float64 `json:"lat"`
 }
 
 func gen(t *rapid.T) Case {
